@@ -164,12 +164,27 @@ def lake_build(targets):
 # modules outside Props/ whose theorems are obligations of a property: the agreement of the hand-written model with the
 # definitions regenerated from the Rust source by tools/rust2lean.py (bitboard shifts, ray fills, knights/pawns, eval helpers,
 # line_between)
-EXTRA_MODULES = {p: ["Rawr.Proofs.RustFnsAgree"] for p in ("C01", "C08", "C10", "C17")}
+# … and by tools/rust2lean_imp.py (flip, makenull, position helpers, makemove, predict_hash / calculate_hash, validate, the attack
+# queries, eval, move_generator, count_moves, legal_moves, legal_captures); SpecSanity = theorems about the specification alone
+# (colour symmetry, kings never captured, conservation, published perft counts evaluated in the kernel)
+_IMP = ["Rawr.Proofs.RustImpAgree", "Rawr.Proofs.RustImpAgree_MakeMove", "Rawr.Proofs.RustImpAgree_MoveGen"]
+EXTRA_MODULES = {
+    "C01": ["Rawr.Proofs.RustFnsAgree"] + _IMP + ["Rawr.Props.SpecSanity"],
+    "C02": _IMP,
+    "C04": _IMP,
+    "C06": ["Rawr.Proofs.RustImpAgree"],
+    "C07": ["Rawr.Proofs.RustImpAgree"],
+    "C08": ["Rawr.Proofs.RustFnsAgree"] + _IMP + ["Rawr.Props.SpecSanity"],
+    "C10": ["Rawr.Proofs.RustFnsAgree"],
+    "C17": ["Rawr.Proofs.RustFnsAgree", "Rawr.Proofs.RustImpAgree"],
+    "C19": ["Rawr.Proofs.RustImpAgree"],
+}
 
 
 def run_rust2lean():
     rc, out = sh([sys.executable, os.path.join(VERIF, "tools", "rust2lean.py")])
-    return rc == 0, out.strip()
+    rc2, out2 = sh([sys.executable, os.path.join(VERIF, "tools", "rust2lean_imp.py")])
+    return rc == 0 and rc2 == 0, (out.strip() + " | " + out2.strip())
 
 
 def props_modules(prop):
